@@ -497,12 +497,11 @@ Proof.
   induction vs as [|v r IH]; intros Hid; [reflexivity|].
   assert (Hr : forall x, In x r -> v_auction x = id) by (intros x Hx; apply Hid; now right).
   specialize (IH Hr). cbn [map filter]. unfold VestingFacts.due_of in *. cbn [filter].
-  unfold VestingFacts.release_vq at 1. rewrite (Hid v (or_introl eq_refl)), N.eqb_refl. cbn [andb].
-  unfold vq_due in *. destruct (v_time v <=? t) eqn:Et; cbn [andb].
-  - destruct (v_released v) eqn:Er; cbn [negb].
-    + rewrite Er. cbn [negb]. exact IH.
-    + cbn [v_released set_v_released negb map]. rewrite !sumZ_cons. rewrite IH. lia.
-  - destruct (v_released v) eqn:Er; cbn [negb]; [exact IH|]. cbn [map]. rewrite !sumZ_cons, IH. lia.
+  assert (E : VestingFacts.release_vq id t v = if vq_due t v then set_v_released v true else v).
+  { unfold VestingFacts.release_vq. rewrite (Hid v (or_introl eq_refl)), N.eqb_refl. reflexivity. }
+  rewrite E. clear E. unfold vq_due in *.
+  destruct (v_time v <=? t) eqn:Et, (v_released v) eqn:Er; cbn [andb negb v_released set_v_released];
+    rewrite ?Er; cbn [negb map]; rewrite ?sumZ_cons; lia.
 Qed.
 
 Lemma release_live s a t :
